@@ -4,6 +4,7 @@ package main
 
 import (
 	"fmt"
+	"go/constant"
 	"go/token"
 	"go/types"
 	"os"
@@ -557,6 +558,38 @@ type retryLoop struct {
 	Loop  *Loop
 	Inner *ssa.Call // the DecoderBuffer call retried
 	Drain *ssa.Call // the WriteTo call
+	// calls of the same DecoderBuffer method before the loop (the first attempt peeled out of the loop)
+	Firsts []*ssa.Call
+}
+
+// lastCounts: the values that denote result #idx of the most recent inner call: the extracts of the
+// in-loop call and of the peeled first attempt(s), and header φs that merge exactly such values.
+func (rl retryLoop) lastCounts(fi *FuncInfo, idx int) map[ssa.Value]bool {
+	set := map[ssa.Value]bool{}
+	for _, cl := range append([]*ssa.Call{rl.Inner}, rl.Firsts...) {
+		if ex := extractOf(cl, idx); ex != nil {
+			set[ex] = true
+		}
+	}
+	for changed := true; changed; {
+		changed = false
+		for _, ph := range fi.phis {
+			if set[ph] || len(ph.Edges) == 0 {
+				continue
+			}
+			all := true
+			for _, e := range ph.Edges {
+				if !set[stripConv(e)] && e != ssa.Value(ph) {
+					all = false
+				}
+			}
+			if all {
+				set[ph] = true
+				changed = true
+			}
+		}
+	}
+	return set
 }
 
 func (c *Ctx) retryLoops() []retryLoop {
@@ -585,6 +618,18 @@ func (c *Ctx) retryLoops() []retryLoop {
 						rl.Drain = call
 					} else if rl.Inner == nil {
 						rl.Inner = call
+					}
+				}
+			}
+			if rl.Inner != nil {
+				for _, b := range fn.Blocks {
+					if l.Blocks[b] || !b.Dominates(l.Header) {
+						continue
+					}
+					for _, in := range b.Instrs {
+						if call, ok := in.(*ssa.Call); ok && call.Call.StaticCallee() == rl.Inner.Call.StaticCallee() {
+							rl.Firsts = append(rl.Firsts, call)
+						}
 					}
 				}
 			}
@@ -630,7 +675,7 @@ func ruleRemainder(c *Ctx) {
 						continue
 					}
 					for _, in := range b.Instrs {
-						if sl, isSl := in.(*ssa.Slice); isSl && sl.High == nil && sl.Low != nil && fi.lin(sl.Low).eq(fi.lin(k)) {
+						if sl, isSl := in.(*ssa.Slice); isSl && sl.High == nil && sl.Low != nil && (fi.lin(sl.Low).eq(fi.lin(k)) || rl.lastCounts(fi, 0)[stripConv(sl.Low)]) {
 							// slices the submitted remainder (or the value it was clamped from)
 							ok = true
 						}
@@ -638,7 +683,14 @@ func ruleRemainder(c *Ctx) {
 				}
 			}
 			_ = arg
-			c.check(ok, key, rl.Inner.Pos(), "remainder p = p[k:] with k the inner count", "the retry does not continue with p[k:] for the count k accepted by the inner Write")
+			if !ok && k != nil {
+				// cursor form: the parameter is never re-sliced; p[c:…] is submitted with a cursor that
+				// starts at 0 and advances by exactly the inner count
+				if sl, isSl := stripSliceHigh(arg); isSl && sl.Low != nil {
+					ok = c.cursorAdvances(fi, rl.Loop, sl.Low, k) && c.unmodifiedParamPath(fn, sl.X)
+				}
+			}
+			c.check(ok, key, rl.Inner.Pos(), "remainder p = p[k:] with k the inner count (or a cursor into p advanced by k)", "the retry does not continue with p[k:] for the count k accepted by the inner Write")
 		case "WriteBlock":
 			kk, ll := extractOf(rl.Inner, 1), extractOf(rl.Inner, 2)
 			okS, okL := false, false
@@ -657,12 +709,38 @@ func ruleRemainder(c *Ctx) {
 						continue
 					}
 					_, sp, _ := pathStr(sl.X)
-					if p == "Sequences" && sp == "Sequences" && kk != nil && fi.lin(sl.Low).eq(fi.lin(kk)) {
+					if p == "Sequences" && sp == "Sequences" && kk != nil && (fi.lin(sl.Low).eq(fi.lin(kk)) || rl.lastCounts(fi, 1)[stripConv(sl.Low)]) {
 						okS = true
 					}
-					if p == "Literals" && sp == "Literals" && ll != nil && fi.lin(sl.Low).eq(fi.lin(ll)) {
+					if p == "Literals" && sp == "Literals" && ll != nil && (fi.lin(sl.Low).eq(fi.lin(ll)) || rl.lastCounts(fi, 2)[stripConv(sl.Low)]) {
 						okL = true
 					}
+				}
+			}
+			if !(okS && okL) && kk != nil && ll != nil {
+				// cursor form: Block{Sequences: blk.Sequences[ck:], Literals: blk.Literals[cl:]} with cursors
+				// advanced by the inner counts; blk itself is not modified
+				cs, cl := false, false
+				for b := range rl.Loop.Blocks {
+					for _, in := range b.Instrs {
+						sl, isSl := in.(*ssa.Slice)
+						if !isSl || sl.High != nil || sl.Low == nil {
+							continue
+						}
+						_, sp, okp := pathStr(sl.X)
+						if !okp || !c.unmodifiedParamPath(fn, sl.X) {
+							continue
+						}
+						if sp == "Sequences" && c.cursorAdvances(fi, rl.Loop, sl.Low, kk) {
+							cs = true
+						}
+						if sp == "Literals" && c.cursorAdvances(fi, rl.Loop, sl.Low, ll) {
+							cl = true
+						}
+					}
+				}
+				if cs && cl {
+					okS, okL = true, true
 				}
 			}
 			c.check(okS && okL, key, rl.Inner.Pos(), "remainder Sequences[kk:], Literals[ll:] with kk, ll the inner counts",
@@ -671,6 +749,75 @@ func ruleRemainder(c *Ctx) {
 			c.fail(key, rl.Inner.Pos(), "unrecognised inner call %s", callee.Name())
 		}
 	}
+}
+
+// stripSliceHigh: v as a slice expression x[lo:hi] or x[lo:] (the submitted chunk may be clamped).
+func stripSliceHigh(v ssa.Value) (*ssa.Slice, bool) {
+	sl, ok := v.(*ssa.Slice)
+	return sl, ok
+}
+
+// cursorAdvances: cur is a φ at the loop header that starts at 0 and whose value on every way round the
+// loop is cur + step (step: a count produced in this iteration).
+func (c *Ctx) cursorAdvances(fi *FuncInfo, l *Loop, cur, step ssa.Value) bool {
+	ph, ok := stripConv(cur).(*ssa.Phi)
+	if !ok || ph.Block() != l.Header {
+		return false
+	}
+	n := 0
+	for i, e := range ph.Edges {
+		if !l.Blocks[l.Header.Preds[i]] {
+			if !isConstZero(e) {
+				return false
+			}
+			continue
+		}
+		for _, lf := range mergeLeaves(e) {
+			if !fi.lin(lf.V).eq(fi.lin(ph).add(fi.lin(step))) {
+				return false
+			}
+			n++
+		}
+	}
+	return n > 0
+}
+
+// unmodifiedParamPath: v is (a field of) a parameter that the function never stores to.
+func (c *Ctx) unmodifiedParamPath(fn *ssa.Function, v ssa.Value) bool {
+	root, p, ok := pathStr(v)
+	if !ok {
+		return false
+	}
+	if _, isParam := root.(*ssa.Parameter); !isParam {
+		// a by-value struct parameter lives in a local cell
+		al, isAlloc := root.(*ssa.Alloc)
+		if !isAlloc {
+			return false
+		}
+		fromParam := false
+		for _, ref := range *al.Referrers() {
+			if st, isSt := ref.(*ssa.Store); isSt && st.Addr == ssa.Value(al) {
+				if _, isP := st.Val.(*ssa.Parameter); isP {
+					fromParam = true
+				} else {
+					return false
+				}
+			}
+		}
+		if !fromParam {
+			return false
+		}
+	}
+	for _, b := range fn.Blocks {
+		for _, in := range b.Instrs {
+			if st, isSt := in.(*ssa.Store); isSt {
+				if r2, p2, ok2 := pathStr(st.Addr); ok2 && r2 == root && (p2 == p || strings.HasPrefix(p, p2+".") || strings.HasPrefix(p2, p+".")) && p2 != "" {
+					return false
+				}
+			}
+		}
+	}
+	return true
 }
 
 // ---------------------------------------------------------------- R-VALIDATE-FIRST
@@ -709,6 +856,39 @@ func (c *Ctx) errExitBlocks(fi *FuncInfo) map[*ssa.BasicBlock]string {
 // waysInto: the condition lists (nearest first) under which block b is entered: one list for a block
 // with a single predecessor (its dominating conditions), one per incoming edge otherwise.
 func (fi *FuncInfo) waysInto(b *ssa.BasicBlock) [][]Cond {
+	ways := fi.waysInto0(b)
+	// conditions on materialised booleans / merged errors stand for the branches behind them: each is
+	// replaced, at its own position in the nearest-first order, by what it stands for (the comparison
+	// that decided it first)
+	var out [][]Cond
+	for _, w := range ways {
+		cur := [][]Cond{{}}
+		for _, cd := range w {
+			alts := fi.condAlternatives(cd, 0)
+			if alts == nil || len(cur)*len(alts) > 12 {
+				for i := range cur {
+					cur[i] = append(cur[i], cd)
+				}
+				continue
+			}
+			var next [][]Cond
+			for _, c0 := range cur {
+				for _, a := range alts {
+					rev := append([]Cond{}, a...)
+					for i, j := 0, len(rev)-1; i < j; i, j = i+1, j-1 {
+						rev[i], rev[j] = rev[j], rev[i]
+					}
+					next = append(next, append(append([]Cond{}, c0...), rev...))
+				}
+			}
+			cur = next
+		}
+		out = append(out, cur...)
+	}
+	return out
+}
+
+func (fi *FuncInfo) waysInto0(b *ssa.BasicBlock) [][]Cond {
 	if len(b.Preds) <= 1 {
 		return [][]Cond{fi.condsAt(b)}
 	}
@@ -938,7 +1118,13 @@ func ruleOffGuard(c *Ctx) {
 			okLen, okWin := false, false
 			detail := ""
 			for _, ph := range fi.phis {
-				if !isIntType(ph.Type()) || !(ph.Block() == d.Pre || ph.Block().Dominates(d.Pre)) {
+				// (the clamp need not dominate the copy — it may sit inside an inlined validator whose other
+				// exits reject — as long as the copy is reachable from it; the proof below is under the
+				// conditions of the copy, which then imply the path through the clamp)
+				if !isIntType(ph.Type()) || !(ph.Block() == d.Pre || ph.Block().Dominates(d.Pre) || fi.reach[ph.Block()][d.Pre]) {
+					continue
+				}
+				if l := fi.loopOf(ph.Block()); l != nil && l.Header == ph.Block() {
 					continue
 				}
 				if !fi.proveAt(off0.sub(linAtom(ph.Name())), d.Pre, nil) {
@@ -1013,6 +1199,13 @@ func ruleOffGuard(c *Ctx) {
 			okZero := false
 			if d.N0 != nil {
 				okZero = fi.proveAny([]Lin{linConst(1).sub(off0), fi.lin(d.N0)}, d.Pre, nil)
+				if !okZero && os.Getenv("LZDBG2") != "" {
+					alts := fi.expandConds(fi.condsAt(d.Pre))
+					fmt.Fprintf(os.Stderr, "DBG offzero %s: off0=%s N0=%s conds=%d alts=%d\n", fnName(fn), off0, fi.lin(d.N0), len(fi.condsAt(d.Pre)), len(alts))
+					for _, a := range alts {
+						fmt.Fprintf(os.Stderr, "   alt: %s\n", factStrings(fi.factsOf(a)))
+					}
+				}
 			}
 			c.check(okZero, key+":offset≠0", d.Off0.Pos(), "Offset ≥ 1 or MatchLen = 0 when the copy starts",
 				"a sequence with Offset == 0 and MatchLen > 0 is not rejected before the match copy (the doubling loop would not terminate)")
@@ -1342,6 +1535,17 @@ func (c *Ctx) backEdgesHaveProgress(fi *FuncInfo, rl retryLoop) bool {
 			}
 		}
 	}
+	// the counts of the most recent inner call may be carried in header φs (first attempt before the loop)
+	if rl.Inner != nil {
+		n := rl.Inner.Call.StaticCallee().Signature.Results().Len()
+		for idx := 0; idx < n-1; idx++ {
+			for v := range rl.lastCounts(fi, idx) {
+				if isIntType(v.Type()) {
+					counts[v.Name()] = true
+				}
+			}
+		}
+	}
 	if len(counts) == 0 {
 		return false
 	}
@@ -1497,6 +1701,52 @@ func mentionsValidity(v ssa.Value, depth int) bool {
 	case *ssa.Call:
 		if bi, ok := x.Call.Value.(*ssa.Builtin); ok && bi.Name() == "len" {
 			if _, p, ok := pathStr(x.Call.Args[0]); ok && lastField(p) == "Literals" {
+				return true
+			}
+		}
+	case *ssa.BinOp:
+		// len(Literals) − cursor and the like: still about the sequence alone, as long as no size of the
+		// buffer (BufferSize, WindowSize, len(Data)) takes part
+		if x.Op == token.ADD || x.Op == token.SUB {
+			if mentionsCapacity(x.X, 0) || mentionsCapacity(x.Y, 0) {
+				return false
+			}
+			return mentionsValidity(x.X, depth+1) || mentionsValidity(x.Y, depth+1)
+		}
+	}
+	return false
+}
+
+// mentionsCapacity: the value depends on BufferSize, WindowSize or len(Data).
+func mentionsCapacity(v ssa.Value, depth int) bool {
+	if depth > 6 {
+		return false
+	}
+	switch x := v.(type) {
+	case *ssa.Convert:
+		return mentionsCapacity(x.X, depth+1)
+	case *ssa.ChangeType:
+		return mentionsCapacity(x.X, depth+1)
+	case *ssa.BinOp:
+		return mentionsCapacity(x.X, depth+1) || mentionsCapacity(x.Y, depth+1)
+	case *ssa.Phi:
+		for _, e := range x.Edges {
+			if e != ssa.Value(x) && mentionsCapacity(e, depth+1) {
+				return true
+			}
+		}
+	case *ssa.UnOp:
+		if x.Op == token.MUL {
+			if _, p, ok := pathStr(x.X); ok {
+				switch lastField(p) {
+				case "BufferSize", "WindowSize":
+					return true
+				}
+			}
+		}
+	case *ssa.Call:
+		if bi, ok := x.Call.Value.(*ssa.Builtin); ok && (bi.Name() == "len" || bi.Name() == "cap") {
+			if _, p, ok := pathStr(x.Call.Args[0]); ok && lastField(p) == "Data" {
 				return true
 			}
 		}
@@ -1658,6 +1908,9 @@ func ruleWinAgree(c *Ctx) {
 				n++
 				// on the error edge: Offset ≥ bound + 1
 				strict := fi.proveLE0(fi.lin(bound).sub(fi.lin(off)).addc(1), conds, nil, map[string]bool{}, 0)
+				if !strict && os.Getenv("LZDBG2") != "" {
+					fmt.Fprintf(os.Stderr, "DBG winagree %s: goal %s ≤ 0 facts %s\n", fnName(fn), fi.lin(bound).sub(fi.lin(off)).addc(1), factStrings(fi.factsOf(conds)))
+				}
 				// bound ≥ min(len(Data)[+LitLen], WindowSize): each defining edge carries WindowSize or a len(Data)-based value
 				exact := true
 				for _, lf := range phiLeaves(stripConv(bound)) {
@@ -1788,14 +2041,6 @@ func ruleStaleLen(c *Ctx) {
 						if c.reachesAvoiding(fi, call, bo, subs) {
 							corrected = false
 						}
-					}
-					if !corrected && os.Getenv("LZDBG2") != "" {
-						cr := c.resultCarriers(fi, call)
-						var ns []string
-						for v := range cr {
-							ns = append(ns, v.Name())
-						}
-						fmt.Fprintf(os.Stderr, "DBG stalelen call=%s carriers=%v subs=%d subtracts=%v\n", call.Name(), ns, len(c.subtractionsOf(fn, call)), c.subtractsResult(bo.Y, call, map[ssa.Value]bool{}))
 					}
 					if !corrected {
 						allOK = false
@@ -2112,7 +2357,16 @@ func ruleCountsAtEnd(c *Ctx) {
 	ret := rets[len(rets)-1]
 	c.check(okK, name+":k", ret.Pos(), "k = index of the failing sequence on exits from the sequence loop, len(Sequences) after the loop",
 		"k is not the index of the failing sequence / len(Sequences) on every exit (or no loop over the sequences was found)")
-	c.check(okL, name+":l", ret.Pos(), "l = len(Literals at entry) − len(Literals remaining)", "l is not the difference between the literal bytes offered and the literal bytes remaining ("+detailL+")")
+	if !okL {
+		// the other representation: blk.Literals is never re-sliced and l is a cursor into it
+		if okC, nAdv := c.literalCursor(fi, rets, seqLoop); okC {
+			okL = true
+			for i := 0; i < nAdv; i++ {
+				c.ok(fmt.Sprintf("%s:cursor-advance#%d", name, i+1), ret.Pos(), "literal bytes are appended from the cursor and the cursor advances by exactly their count")
+			}
+		}
+	}
+	c.check(okL, name+":l", ret.Pos(), "l = literal bytes consumed: len(Literals at entry) − len(Literals remaining), or a cursor that advances by exactly what is appended", "l is not the difference between the literal bytes offered and the literal bytes remaining ("+detailL+")")
 	// the remaining-literals header advances by exactly what is appended
 	n := 0
 	for _, b := range fn.Blocks {
@@ -2151,6 +2405,125 @@ func ruleCountsAtEnd(c *Ctx) {
 	}
 }
 
+// literalCursor decides the cursor representation of the literal accounting: every append of literal
+// bytes to Data takes blk.Literals[c : c+x] (or blk.Literals[c:]) with c the cursor of that moment; the
+// cursor starts at 0, advances by exactly x on every way round the sequence loop, and every returned l is
+// the cursor (error exits) or len(Literals) after the rest blk.Literals[c:] was appended.
+func (c *Ctx) literalCursor(fi *FuncInfo, rets []*ssa.Return, seqLoop *Loop) (bool, int) {
+	fn := fi.fn
+	if seqLoop == nil {
+		return false, 0
+	}
+	type litApp struct {
+		call *ssa.Call
+		sl   *ssa.Slice
+	}
+	var apps []litApp
+	for _, b := range fn.Blocks {
+		for _, in := range b.Instrs {
+			call := isBuiltinCall(in, "append")
+			if call == nil || len(call.Call.Args) != 2 {
+				continue
+			}
+			if p, ok := recvPath(fn, call.Call.Args[0]); !ok || p != "Data" {
+				continue
+			}
+			sl, ok := call.Call.Args[1].(*ssa.Slice)
+			if !ok {
+				continue
+			}
+			if _, p, ok := pathStr(sl.X); !ok || p != "Literals" {
+				continue
+			}
+			apps = append(apps, litApp{call, sl})
+		}
+	}
+	if len(apps) == 0 {
+		return false, 0
+	}
+	// the cursor: the loop-carried value the in-loop append starts at
+	var P *ssa.Phi
+	for _, a := range apps {
+		if seqLoop.Blocks[a.call.Block()] && a.sl.Low != nil {
+			if ph, ok := stripConv(a.sl.Low).(*ssa.Phi); ok && ph.Block() == seqLoop.Header {
+				P = ph
+			}
+		}
+	}
+	if P == nil {
+		return false, 0
+	}
+	lp := fi.lin(P)
+	nAdv := 0
+	for i, e := range P.Edges {
+		pred := P.Block().Preds[i]
+		if !seqLoop.Blocks[pred] {
+			if !isConstZero(e) {
+				return false, 0
+			}
+			continue
+		}
+		for _, lf := range mergeLeaves(e) {
+			l := fi.lin(lf.V)
+			if l.eq(lp) {
+				continue // an iteration that consumed nothing (cannot happen after an append; harmless)
+			}
+			good := false
+			for _, a := range apps {
+				if seqLoop.Blocks[a.call.Block()] && a.sl.Low != nil && a.sl.High != nil && fi.lin(a.sl.Low).eq(lp) &&
+					l.eq(lp.add(fi.lin(a.sl.High)).sub(fi.lin(a.sl.Low))) {
+					good = true
+				}
+			}
+			if !good {
+				return false, 0
+			}
+			nAdv++
+		}
+	}
+	// every literal append starts at the cursor
+	for _, a := range apps {
+		lo := linConst(0)
+		if a.sl.Low != nil {
+			lo = fi.lin(a.sl.Low)
+		}
+		if !lo.eq(lp) {
+			return false, 0
+		}
+	}
+	// the returned l
+	for _, r := range rets {
+		for _, lf := range mergeLeaves(r.Results[2]) {
+			l := fi.lin(lf.V)
+			if l.eq(lp) {
+				continue
+			}
+			isLen := false
+			for a, co := range l.t {
+				if strings.HasPrefix(a, "len(") && strings.Contains(a, "Literals") && co == 1 && len(l.t) == 1 && l.c == 0 {
+					isLen = true
+				}
+			}
+			rest := false
+			for _, a := range apps {
+				if a.sl.High == nil && !seqLoop.Blocks[a.call.Block()] {
+					at := r.Block()
+					if lf.Pred != nil {
+						at = lf.Pred
+					}
+					if a.call.Block() == at || a.call.Block().Dominates(at) {
+						rest = true
+					}
+				}
+			}
+			if !(isLen && rest) {
+				return false, 0
+			}
+		}
+	}
+	return nAdv > 0, nAdv
+}
+
 // ---------------------------------------------------------------- R-SUM
 
 func ruleSum(c *Ctx) {
@@ -2169,43 +2542,113 @@ func ruleSum(c *Ctx) {
 		good := true
 		why := ""
 		nret := 0
-		for _, b := range fn.Blocks {
-			r, ok := b.Instrs[len(b.Instrs)-1].(*ssa.Return)
-			if !ok {
-				continue
-			}
-			if !rl.Loop.Blocks[b] && !(rl.Inner.Block().Dominates(b)) {
-				continue
-			}
-			nret++
-			for j := 0; j < nres; j++ {
-				// result j must be acc_j(before this iteration) + all inner counts of index j produced so far in this iteration
-				v := fi.lin(r.Results[j])
-				ex := extractOf(rl.Inner, j)
-				if ex == nil {
+		calls := append([]*ssa.Call{rl.Inner}, rl.Firsts...)
+		for j := 0; j < nres; j++ {
+			exOf := map[ssa.Value]*ssa.Call{}
+			for _, cl := range calls {
+				if ex := extractOf(cl, j); ex != nil {
+					exOf[ex] = cl
+				} else {
 					good = false
 					why = "inner count not used"
+				}
+			}
+			// sums: 0, a count of a first attempt, sum + count (added in the block of its call: before any
+			// test of the call's error), header φs merging sums
+			sums := map[ssa.Value]bool{}
+			isSum := func(v ssa.Value) bool {
+				v = stripConv(v)
+				return sums[v] || isConstZero(v)
+			}
+			// greatest fixpoint (the accumulator is a loop-carried φ: sum ↔ φ is a cycle): start from all
+			// candidates, drop what violates its form until nothing changes
+			for ex, cl := range exOf {
+				if cl != rl.Inner {
+					sums[ex] = true // the first attempt's count taken as the initial sum
+				}
+			}
+			for _, b := range fn.Blocks {
+				for _, in := range b.Instrs {
+					switch x := in.(type) {
+					case *ssa.BinOp:
+						if x.Op == token.ADD && isIntType(x.Type()) {
+							sums[x] = true
+						}
+					case *ssa.Phi:
+						if isIntType(x.Type()) {
+							sums[x] = true
+						}
+					}
+				}
+			}
+			for changed := true; changed; {
+				changed = false
+				for v := range sums {
+					keep := true
+					switch x := v.(type) {
+					case *ssa.BinOp:
+						keep = false
+						for _, pr := range [][2]ssa.Value{{x.X, x.Y}, {x.Y, x.X}} {
+							if cl, isEx := exOf[stripConv(pr[1])]; isEx && isSum(pr[0]) && x.Block() == cl.Block() {
+								keep = true
+							}
+						}
+					case *ssa.Phi:
+						for _, e := range x.Edges {
+							if !isSum(e) && e != ssa.Value(x) {
+								keep = false
+							}
+						}
+					}
+					if !keep {
+						delete(sums, v)
+						changed = true
+					}
+				}
+			}
+			for _, b := range fn.Blocks {
+				r, ok := b.Instrs[len(b.Instrs)-1].(*ssa.Return)
+				if !ok {
 					continue
 				}
-				co := v.t[ex.Name()]
-				if co != 1 {
-					good = false
-					why = fmt.Sprintf("return value #%d = %s does not include the inner count of this iteration exactly once", j, v)
+				// only returns that can follow an inner call
+				after := false
+				for _, cl := range calls {
+					if fi.instrReaches(cl, r) {
+						after = true
+					}
 				}
-				// the rest must be the header phi accumulator
-				rest := v.clone()
-				delete(rest.t, ex.Name())
-				if len(rest.t) != 1 || rest.c != 0 {
-					good = false
-					why = fmt.Sprintf("return value #%d = %s is not accumulator + inner count", j, v)
+				if !after {
+					continue
+				}
+				if j == 0 {
+					nret++
+				}
+				for _, lf := range mergeLeaves(r.Results[j]) {
+					v := stripConv(lf.V)
+					if !isSum(v) {
+						good = false
+						why = fmt.Sprintf("return value #%d = %s is not the sum of the inner counts so far", j, fi.lin(r.Results[j]))
+						continue
+					}
+					// a return in the iteration of an inner call must already include that call's count
+					if rl.Inner.Block().Dominates(b) && rl.Loop.Blocks[rl.Inner.Block()] {
+						ex := extractOf(rl.Inner, j)
+						if bo, isAdd := v.(*ssa.BinOp); !isAdd || (stripConv(bo.X) != ssa.Value(ex) && stripConv(bo.Y) != ssa.Value(ex)) {
+							if ph, isPhi := v.(*ssa.Phi); !isPhi || ph.Block() == rl.Loop.Header {
+								good = false
+								why = fmt.Sprintf("return value #%d = %s does not include the inner count of this iteration", j, fi.lin(r.Results[j]))
+							}
+						}
+					}
 				}
 			}
 		}
 		if nret == 0 {
 			good = false
-			why = "no return inside the retry loop"
+			why = "no return after the inner call"
 		}
-		c.check(good, key, rl.Inner.Pos(), "every return reports accumulator + this iteration's inner counts (added before the error test)", "counts are not accumulated once per iteration before the error test: "+why)
+		c.check(good, key, rl.Inner.Pos(), "every return reports the sum of the inner counts so far (each added once, before the error of its call is tested)", "counts are not accumulated once per iteration before the error test: "+why)
 	}
 }
 
@@ -2472,8 +2915,16 @@ func (c *Ctx) resultCarriers(fi *FuncInfo, call *ssa.Call) map[ssa.Value]bool {
 	return S
 }
 
-// reachesAvoiding: is there a path from instruction a to instruction b that
-// executes none of the instructions in avoid?
+// reachesAvoiding: is there a feasible path from instruction a to instruction b that
+// executes none of the instructions in avoid? Feasibility is decided for one kind of correlation only:
+// a branch on φ == nil / φ != nil (or on a boolean φ) follows the edge by which the path entered the
+// φ's block when that edge brought a value of known nil-ness (resp. a constant): `err = E; break` …
+// `if err != nil { goto end }` cannot continue into the next iteration.
+func isBoolType(t types.Type) bool {
+	b, ok := t.Underlying().(*types.Basic)
+	return ok && b.Kind() == types.Bool
+}
+
 func (c *Ctx) reachesAvoiding(fi *FuncInfo, a, b ssa.Instruction, avoid []ssa.Instruction) bool {
 	blocked := func(blk *ssa.BasicBlock, from, to int) bool { // any avoid instr in blk with from < idx < to
 		for _, x := range avoid {
@@ -2495,15 +2946,101 @@ func (c *Ctx) reachesAvoiding(fi *FuncInfo, a, b ssa.Instruction, avoid []ssa.In
 	if blocked(ab, fi.instrIx[a], 1<<30) {
 		return false
 	}
-	seen := map[*ssa.BasicBlock]bool{}
-	stack := append([]*ssa.BasicBlock{}, ab.Succs...)
-	for len(stack) > 0 {
-		x := stack[len(stack)-1]
-		stack = stack[:len(stack)-1]
-		if seen[x] {
-			continue
+	// the φ blocks whose φs are branched on
+	tracked := map[*ssa.BasicBlock]bool{}
+	condPhi := func(blk *ssa.BasicBlock) (*ssa.Phi, bool, bool) { // φ, branch-taken-when-nil / when-true, ok
+		iff, ok := blk.Instrs[len(blk.Instrs)-1].(*ssa.If)
+		if !ok {
+			return nil, false, false
 		}
-		seen[x] = true
+		cd := unNot(Cond{iff.Cond, true})
+		if ph, isPhi := cd.V.(*ssa.Phi); isPhi {
+			return ph, cd.True, true // succ[0] taken when φ == cd.True
+		}
+		if bo, isBo := cd.V.(*ssa.BinOp); isBo && (bo.Op == token.EQL || bo.Op == token.NEQ) {
+			var ph *ssa.Phi
+			if k, isC := bo.Y.(*ssa.Const); isC && k.Value == nil {
+				ph, _ = bo.X.(*ssa.Phi)
+			} else if k, isC := bo.X.(*ssa.Const); isC && k.Value == nil {
+				ph, _ = bo.Y.(*ssa.Phi)
+			}
+			if ph != nil {
+				// succ[0] is taken when (φ is nil) == ((op == EQL) == cd.True)
+				return ph, (bo.Op == token.EQL) == cd.True, true
+			}
+		}
+		return nil, false, false
+	}
+	for _, blk := range fi.fn.Blocks {
+		if ph, _, ok := condPhi(blk); ok {
+			tracked[ph.Block()] = true
+		}
+	}
+	type state struct {
+		b   *ssa.BasicBlock
+		sig string
+	}
+	type item struct {
+		b     *ssa.BasicBlock
+		taken map[*ssa.BasicBlock]int
+	}
+	sigOf := func(t map[*ssa.BasicBlock]int) string {
+		var ks []int
+		for m, k := range t {
+			ks = append(ks, m.Index*64+k)
+		}
+		sort.Ints(ks)
+		return fmt.Sprint(ks)
+	}
+	seen := map[state]bool{}
+	var stack []item
+	push := func(from, to *ssa.BasicBlock, taken map[*ssa.BasicBlock]int) {
+		t2 := taken
+		if tracked[to] {
+			t2 = map[*ssa.BasicBlock]int{}
+			for m, k := range taken {
+				t2[m] = k
+			}
+			for i, p := range to.Preds {
+				if p == from {
+					t2[to] = i
+				}
+			}
+		}
+		st := state{to, sigOf(t2)}
+		if seen[st] || len(seen) > 4000 {
+			return
+		}
+		seen[st] = true
+		stack = append(stack, item{to, t2})
+	}
+	succs := func(blk *ssa.BasicBlock, taken map[*ssa.BasicBlock]int) []*ssa.BasicBlock {
+		if ph, first, ok := condPhi(blk); ok {
+			if k, known := taken[ph.Block()]; known && k < len(ph.Edges) {
+				e := ph.Edges[k]
+				if kc, isC := e.(*ssa.Const); isC && kc.Value != nil && kc.Value.Kind() == constant.Bool {
+					if constant.BoolVal(kc.Value) == first {
+						return []*ssa.BasicBlock{blk.Succs[0]}
+					}
+					return []*ssa.BasicBlock{blk.Succs[1]}
+				}
+				if l, okN := fi.nilLin(e); okN && l.isConst() && !isBoolType(e.Type()) {
+					if (l.c == 1) == first {
+						return []*ssa.BasicBlock{blk.Succs[0]}
+					}
+					return []*ssa.BasicBlock{blk.Succs[1]}
+				}
+			}
+		}
+		return blk.Succs
+	}
+	for _, sc := range succs(ab, nil) {
+		push(ab, sc, map[*ssa.BasicBlock]int{})
+	}
+	for len(stack) > 0 {
+		it := stack[len(stack)-1]
+		stack = stack[:len(stack)-1]
+		x := it.b
 		if x == bb {
 			if !blocked(x, -1, fi.instrIx[b]) {
 				return true
@@ -2513,7 +3050,9 @@ func (c *Ctx) reachesAvoiding(fi *FuncInfo, a, b ssa.Instruction, avoid []ssa.In
 		if blocked(x, -1, 1<<30) {
 			continue
 		}
-		stack = append(stack, x.Succs...)
+		for _, sc := range succs(x, it.taken) {
+			push(x, sc, it.taken)
+		}
 	}
 	return false
 }
